@@ -309,6 +309,30 @@ example : AllValid (effective .netconf [{ opt := .WithPort, args := [[[50,50]]] 
   simp [effective, netconfConnectionOpt] at ho
   rcases ho with h | h <;> subst h <;> decide
 
+/-! ## `construct_pure`: constructors are functions of the option list -/
+
+/-- a session: several constructions in a row (each with its own constructor and platform
+options) all handed the same caller-owned user option list -/
+def session (steps : List (Ctor × List OptInst)) (user : List OptInst) (c : Config) :
+    List (Except Err Config) :=
+  steps.map fun s => construct s.1 (s.2 ++ user) c
+
+/-- Constructing is pure: what a construction returns depends only on its own constructor,
+platform options and the option list — not on how many drivers were built from the same list
+before it, nor by which constructors. (In the model this holds by construction; in Go it is the
+claim that a constructor neither keeps state nor writes through the caller's slice, which the
+`reuse` class of the correspondence checks on the real code, together with the caller's slice
+being element-wise unchanged.) -/
+theorem construct_pure (before : List (Ctor × List OptInst)) (k : Ctor) (plat user : List OptInst)
+    (c : Config) :
+    (session (before ++ [(k, plat)]) user c).getLast? = some (construct k (plat ++ user) c) := by
+  simp [session]
+
+/-- constructing twice from the same list gives the same configuration -/
+theorem construct_twice_same (k : Ctor) (opts : List OptInst) (c : Config) :
+    session [(k, []), (k, [])] opts c = [construct k opts c, construct k opts c] := by
+  simp [session]
+
 /-! ## `user_overrides_platform` -/
 
 /-- Platform options first, user options after: for every field, the user's options act on what
